@@ -6,26 +6,26 @@
    files are transcribed as [wakes] (which ids a store write / topology change / connection change enqueues) and
    onos-lib-go's reconcileRequest as [requeue] (Requeue{id} enqueues id, an error re-enqueues the same id, anything
    else drops it).  A queue step delivers ANY pending id (every delivery order), runs the whole reconcile, applies its
-   effects and enqueues what the watchers map each write to.  [fixes] switches the candidate repairs on and off
-   (fixes/C09-1..3.patch); [no_fixes] is the code as it is.
+   effects and enqueues what the watchers map each write to.  The model is the CURRENT code: the repairs of the lost
+   wake-ups F-02a (dead_prev), F-02b (initfail_successor), F-02e (sync_wakeup) and of the wedged target F-21 - /repo
+   commits ee3b808, 39c8330, cb11c37, 6c28fbb - are part of Model/Proto2.v and of [wakes].
 
    How the theorems decide the property.
-   The property text is FALSE for the code as it is, in five different ways, each a theorem about the executable
-   instance (evaluated delivery orders, all reproduced on the real controllers with their real watchers and queues by
-   harness/cmd/c09, see findings/C09.jsonl):
-     C09_lost_wakeup_initfail_successor_refuted   a transaction waits for ever behind one whose initialisation FAILED
-     C09_lost_wakeup_dead_prev_refuted            a proposal waits for ever behind an ABORTED / apply-FAILED proposal
-     C09_lost_wakeup_serializable_gate_refuted    a transaction waits for ever at a SERIALIZABLE gate that has opened
-     C09_lost_wakeup_sync_wakeup_refuted          a proposal in APPLYING is not woken when its configuration becomes
-                                                  mastered and synchronised (device connects after a Set and its rollback)
-     C09_lost_wakeup_commit_hidden_by_apply_refuted  (model only; stalls while the device is away) a proposal waits in
-                                                  VALIDATING behind a COMMITTED proposal whose apply phase was started
-     C09_progress_refuted                         every target connected and synchronised, the system idle AND at a fixed
-                                                  point, and a transaction is not final: after a partial apply failure of a
-                                                  multi-target transaction the other targets are wedged (finding F-21)
-     C09_requeue_cycle_refuted                    ... and two proposals of the wedged target re-queue each other for ever
-                                                  (the work queue never drains: a busy loop, also observed on the real code)
-   What is proved for all pure layers, worlds, oracles, delivery orders and both settings of the repairs:
+   The property text is still FALSE for the current code, in two ways, each a theorem about the executable instance
+   (evaluated delivery orders; open findings in findings/C09.jsonl):
+     C09_lost_wakeup_serializable_gate_refuted    idle, every target connected, and a transaction is parked for ever at a
+                                                  SERIALIZABLE gate that has opened (F-02d; reproduced on the real controllers
+                                                  with their real watchers and queues by harness/cmd/c09)
+     C09_requeue_cycle_refuted                    every target connected, a transaction not final, and everything that is
+                                                  pending is a pair of proposals (a COMMITTED one whose apply phase was not
+                                                  started - its transaction is parked at such a gate - and its successor in
+                                                  APPLYING) that, whatever the oracle, do nothing but re-queue each other: no
+                                                  delivery order ever empties the queue or changes the world (F-22; the
+                                                  mutual re-queueing is observed on the real reconcilers by the p2 harness)
+   The repaired shapes are regression Examples in Proofs/P2_QueueWitness.v (regression_dead_prev, _apply_failed,
+   _initfail_successor, _sync_wakeup, _two_changes_offline, _partial_apply_failure: complete histories of the scenarios
+   of F-02a, F-02b, F-02e and F-21 end idle, at a fixed point, every target connected, every transaction final).
+   What is proved for all pure layers, worlds, oracles and delivery orders:
      C09_queue_runs_are_runs      every queued run is a run of Model/Proto2.v (so every invariant proved about that
                                   model - C01 ... - holds in every queued world)
      C09_enabled_only_stored      only ids that name a stored record can be enabled: the "one extra pass over all
@@ -33,14 +33,12 @@
      C09_fixpoint_partial         C09_fixpoint under the wake-up-token invariant [tokens] (every enabled id is reached
                                   from a pending id through re-queue results): all queues empty => no reconcile of any
                                   controller id has an effect, for any oracle.
-                                  PARTIAL: [tokens] is a hypothesis, not a proved invariant of the repaired model.  The
-                                  missing lemma is "qstep all_fixes preserves tokens for worlds without SERIALIZABLE
-                                  transactions and without partial apply failures" (one case per effect x waiting
-                                  state; it needs the chain invariants prev/next/cursors of DESIGN 5.0 that are not
-                                  proved yet).  Evidence instead of proof: ocaml/c09_search.ml finds no idle state
-                                  that is not a fixed point in > 700 000 idle states of the repaired model (run on every
-                                  check by props/c09_extra.py), and harness/cmd/c09 shows the three repaired shapes gone
-                                  on the real controllers.
+                                  PARTIAL: [tokens] is a hypothesis, not a proved invariant.  The missing lemma is
+                                  "qstep preserves tokens for worlds without SERIALIZABLE transactions" (one case per
+                                  effect x waiting state; it needs the chain invariants prev/next/cursors of DESIGN 5.0).
+                                  Evidence instead of proof: ocaml/c09_search.ml finds no idle state that is not a fixed
+                                  point in > 700 000 idle states without SERIALIZABLE transactions (run on every check
+                                  by props/c09_extra.py); tokens_satisfiable exhibits a non-trivial world.
      C09_terminates_partial       every write of the transaction controller and of the proposal controller to a
                                   transaction / proposal record strictly lowers the phase rank of that record
                                   (C09_rank_bounds: at most 11 / 12), so records only move forward and each is written a
@@ -48,7 +46,8 @@
                                   sum over the finite maps, and the cursor writes of the configuration - Proposed /
                                   Committed / Applied indexes - which need the chain invariant prev < index), and
                                   C09_requeue_cycle_refuted shows that effect-free re-queueing need NOT terminate.
-   C09_progress is not proved in any form (only refuted as stated); it needs the same chain invariants. *)
+   C09_progress is neither proved nor refuted for the current model (its refutation, the wedged target F-21, is repaired:
+   regression_partial_apply_failure); a proof needs the same chain invariants. *)
 From stdpp Require Import gmap.
 From Coq Require Import NArith.
 From OC Require Import Base.Bytes Model.P2Pure Model.Proto2 Model.P2Inst Model.Proto2Queue Model.P2QInst
@@ -67,13 +66,13 @@ Section C09.
                                     touched restore resync_payload doc_ok stamp v_empty d_empty ch_empty).
   Notation reach := (@reach V Ch Req D candidate candidate_rb rollback_of overlay commit_merge payload record_applied
                             touched restore resync_payload doc_ok dev_apply stamp v_empty d_empty ch_empty).
-  Notation qreach fx := (@qreach V Ch Req D fx candidate candidate_rb rollback_of overlay commit_merge payload record_applied
+  Notation qreach := (@qreach V Ch Req D candidate candidate_rb rollback_of overlay commit_merge payload record_applied
                                  touched restore resync_payload doc_ok dev_apply stamp v_empty d_empty ch_empty).
-  Notation tokens fx := (@tokens V Ch Req D candidate candidate_rb rollback_of overlay commit_merge payload record_applied
-                                 touched restore resync_payload doc_ok stamp v_empty d_empty ch_empty fx).
+  Notation tokens := (@tokens V Ch Req D candidate candidate_rb rollback_of overlay commit_merge payload record_applied
+                              touched restore resync_payload doc_ok stamp v_empty d_empty ch_empty).
   Notation forward := (@forward V Ch Req D).
 
-  Theorem C09_queue_runs_are_runs : forall (fx : fixes) (s : @qworld V Ch Req D), qreach fx s -> reach (qw s).
+  Theorem C09_queue_runs_are_runs : forall (s : @qworld V Ch Req D), qreach s -> reach (qw s).
   Proof. exact (qreach_reach candidate candidate_rb rollback_of overlay commit_merge payload record_applied touched restore
                   resync_payload doc_ok dev_apply stamp v_empty d_empty ch_empty). Qed.
 
@@ -82,10 +81,10 @@ Section C09.
   Proof. exact (enabled_stored candidate candidate_rb rollback_of overlay commit_merge payload record_applied touched restore
                   resync_payload doc_ok stamp v_empty d_empty ch_empty). Qed.
 
-  Theorem C09_fixpoint_partial : forall (fx : fixes) (s : @qworld V Ch Req D),
-    qreach fx s -> tokens fx s -> idle s = true -> forall c o, fst (reconcile o (qw s) c) = [].
-  Proof. exact (fun fx s _ => fixpoint_of_tokens candidate candidate_rb rollback_of overlay commit_merge payload record_applied touched
-                  restore resync_payload doc_ok stamp v_empty d_empty ch_empty fx s). Qed.
+  Theorem C09_fixpoint_partial : forall (s : @qworld V Ch Req D),
+    qreach s -> tokens s -> idle s = true -> forall c o, fst (reconcile o (qw s) c) = [].
+  Proof. exact (fun s _ => fixpoint_of_tokens candidate candidate_rb rollback_of overlay commit_merge payload record_applied touched
+                  restore resync_payload doc_ok stamp v_empty d_empty ch_empty s). Qed.
 
   Theorem C09_terminates_partial : forall (o : oracle) (w : @world V Ch Req D) (c : ctrl),
     (match c with CtlTx _ | CtlProp _ => True | _ => False end) -> Forall (forward w) (fst (reconcile o w c)).
@@ -96,31 +95,16 @@ Section C09.
   Proof. exact (fun T P => conj (mt_bound T) (mp_bound P)). Qed.
 End C09.
 
-(* the code as it is, executable instance *)
-Theorem C09_lost_wakeup_initfail_successor_refuted : lost_wakeup no_fixes sig_initfail_successor.
-Proof. exact lost_wakeup_initfail_successor. Qed.
-Theorem C09_lost_wakeup_dead_prev_refuted : lost_wakeup no_fixes sig_dead_prev.
-Proof. exact lost_wakeup_dead_prev. Qed.
-Theorem C09_lost_wakeup_serializable_gate_refuted : lost_wakeup no_fixes sig_serializable_gate.
+(* the current code, executable instance *)
+Theorem C09_lost_wakeup_serializable_gate_refuted : lost_wakeup sig_serializable_gate.
 Proof. exact lost_wakeup_serializable_gate. Qed.
-Theorem C09_lost_wakeup_sync_wakeup_refuted : lost_wakeup no_fixes sig_sync_wakeup.
-Proof. exact lost_wakeup_sync_wakeup. Qed.
-Theorem C09_lost_wakeup_commit_hidden_by_apply_refuted : lost_wakeup no_fixes sig_commit_hidden_by_apply.
-Proof. exact lost_wakeup_commit_hidden_by_apply. Qed.
-Theorem C09_progress_refuted : deadlock no_fixes.
-Proof. exact deadlock_wedged_target. Qed.
-Theorem C09_requeue_cycle_refuted : requeue_cycle no_fixes.
-Proof. exact requeue_cycle_wedged_target. Qed.
+Theorem C09_requeue_cycle_refuted : livelock.
+Proof. exact livelock_behind_gate. Qed.
 
 Print Assumptions C09_queue_runs_are_runs.
 Print Assumptions C09_enabled_only_stored.
 Print Assumptions C09_fixpoint_partial.
 Print Assumptions C09_terminates_partial.
 Print Assumptions C09_rank_bounds.
-Print Assumptions C09_lost_wakeup_initfail_successor_refuted.
-Print Assumptions C09_lost_wakeup_dead_prev_refuted.
 Print Assumptions C09_lost_wakeup_serializable_gate_refuted.
-Print Assumptions C09_lost_wakeup_sync_wakeup_refuted.
-Print Assumptions C09_lost_wakeup_commit_hidden_by_apply_refuted.
-Print Assumptions C09_progress_refuted.
 Print Assumptions C09_requeue_cycle_refuted.
